@@ -602,10 +602,15 @@ impl Interval {
     pub fn mix(self: Interval, rhs: Interval) -> Interval {
         // We'll treat NANs as invalid values instead of valid bitwise seeds,
         // just to be on the safe side.
+        // Interval arithmetic does not track the sign of a zero (e.g.
+        // `abs([-0, -0])` is `[-0, -0]` but `abs(-0.0)` is `+0.0`), so a zero
+        // operand is not a known bit pattern either.
         if self.has_nan()
             || rhs.has_nan()
             || self.lower().to_bits() != self.upper().to_bits()
             || rhs.lower().to_bits() != rhs.upper().to_bits()
+            || self.lower() == 0.0
+            || rhs.lower() == 0.0
         {
             f32::NAN.into()
         } else {
@@ -621,7 +626,13 @@ impl Interval {
     pub fn rand(&self) -> Interval {
         // We'll treat NANs as mystery values here, instead of as valid bitwise
         // seeds.  This is conservative but should be fine.
-        if self.has_nan() || self.lower().to_bits() != self.upper().to_bits() {
+        // Interval arithmetic does not track the sign of a zero (e.g.
+        // `abs([-0, -0])` is `[-0, -0]` but `abs(-0.0)` is `+0.0`), so a zero
+        // is not a known bit pattern either.
+        if self.has_nan()
+            || self.lower().to_bits() != self.upper().to_bits()
+            || self.lower() == 0.0
+        {
             Interval::new(0.0, 1.0)
         } else {
             crate::rng::rand(self.lower().to_bits()).into()
